@@ -63,6 +63,17 @@ def run(ctx):
             st = c['steps'][step]
             ops.append(f'ib.signadd {c["hash"]} {c["state"]} {st["pk"]} {attrs_str(st["attrs"])} {"fail" if st["fail"] or not sg else sg} {vd}')
         g, m = ctx.both(ops)
+        # what the strategy returned is not a 64-byte signature: zero / non-zero padding, truncation, empty (must be refused, block unchanged)
+        vops = []
+        for c, mm, sg in zip(act, msgs, sig_for):
+            if not (mm and sg) or step > 1: continue
+            st = c['steps'][step]
+            raw = unhex(sg)
+            cands = [raw + b'\x00', raw + bytes(32), raw + b'\x01', raw[:-1], raw[:32], b'', raw + raw]
+            vds = ctx.go([f'oracle.edverify {st["pk"]} {mm} {hexs(x)}' for x in cands])
+            for x, vd in zip(cands, vds):
+                vops.append(f'ib.signadd {c["hash"]} {c["state"]} {st["pk"]} {attrs_str(st["attrs"])} {hexs(x) if x else "-"} {vd}')
+        ctx.both(vops)
         for c, gr in zip(act, g):
             if gr and gr.startswith('ok '):
                 c['state'] = gr.split(' ')[1]
